@@ -647,7 +647,7 @@ int main(int argc, char ** argv) {
         { "exactsrc", p4_count, p4_run },
         { "wraplimit", p5_count, p5_run },
     };
-    vh_require("query");
+    vh_decoy_enable(7); vh_require("decoy.messages_run_on_a_second_context"); vh_require("query");
     vh_require("text.present");
     vh_require("text.none");
     vh_require("content.cut");
